@@ -73,6 +73,14 @@ Theorem C05_cache_bounded_objects :
 Proof. exact (fun tbls ops => objects_cache_bounded (list level) (list string) classify_opt gen_keyed_by_self gen_cap gen_update_clears_cache ops (mkM tbls []) (nil_good _ _)). Qed.
 Print Assumptions C05_cache_bounded_objects.
 
+(* recency: whenever the capacity is positive, an answered query leaves its own entry at the front of the store *)
+Theorem C05_cache_recency :
+  forall (s : cst (list level) (list string)) p v, (1 <= gen_cap)%nat ->
+  snd (cstep classify_opt gen_cap gen_update_clears_cache s (Query p)) = Some (Some v) ->
+  hd_error (c_cache (fst (cstep classify_opt gen_cap gen_update_clears_cache s (Query p)))) = Some (p, v).
+Proof. exact (cstep_front (list level) (list string) classify_opt gen_cap gen_update_clears_cache). Qed.
+Print Assumptions C05_cache_recency.
+
 (* a memo whose key ignores the object hands object 1 the answer computed for object 0 *)
 Theorem C05_cache_shared_key_refuted :
   snd (mrun toy_classify false 64 true (mkM [0%nat; 1%nat] []) [MQuery 0 [1]; MQuery 1 [1]])
